@@ -182,7 +182,20 @@ second:
 					n++
 					arg := call.Call.Args[1+i]
 					if !boxesOnly(arg, ta.AssertedType, 0) {
-						all = false
+						// (inductive case) the same component of an entry of the same map, handed to a Range
+						// callback: it has the type if everything else stored there has
+						inductive := false
+						if prm, ok := an.Resolve(arg).(*ssa.Parameter); ok {
+							cb := prm.Parent()
+							if mk2, only := rangeCallbackOf(p, cb); only && mk2 == mapKey {
+								if pi := paramIndexOf(cb, prm); pi-(len(cb.Params)-2) == i {
+									inductive = true
+								}
+							}
+						}
+						if !inductive {
+							all = false
+						}
 					}
 				})
 			}
